@@ -142,8 +142,15 @@ int ops_codec(char **args, int na)
 			if (mmap(base0 + off, piece, PROT_READ, MAP_PRIVATE | MAP_FIXED, fd, 0) == MAP_FAILED) { munmap(base0, total); close(fd); unlink(path); puts("big unavailable"); return 0; }
 		const uint8_t *p = base0 + al;
 		uint32_t a = mtbl_crc32c(p, len), sl = my_crc32c_slicing(p, len);
-		if (my_crc32c_sse42_supported()) printf("big api=%lu slicing=%lu sse42=%lu\n", (unsigned long)a, (unsigned long)sl, (unsigned long)my_crc32c_sse42(p, len));
-		else printf("big api=%lu slicing=%lu sse42=unsupported\n", (unsigned long)a, (unsigned long)sl);
+		char ref[40] = "";
+		if (len <= ((size_t)64 << 20)) {
+			/* an independent bytewise reference (reflected polynomial 0x82F63B78) for buffers up to 64 MiB */
+			static uint32_t tab[256]; if (!tab[1]) for (uint32_t i = 0; i < 256; i++) { uint32_t c = i; for (int k = 0; k < 8; k++) c = (c & 1) ? (c >> 1) ^ 0x82F63B78u : c >> 1; tab[i] = c; }
+			uint32_t c = 0xffffffffu; for (size_t i = 0; i < len; i++) c = tab[(c ^ p[i]) & 0xff] ^ (c >> 8);
+			snprintf(ref, sizeof ref, " ref=%lu", (unsigned long)(c ^ 0xffffffffu));
+		}
+		if (my_crc32c_sse42_supported()) printf("big api=%lu slicing=%lu sse42=%lu%s\n", (unsigned long)a, (unsigned long)sl, (unsigned long)my_crc32c_sse42(p, len), ref);
+		else printf("big api=%lu slicing=%lu sse42=unsupported%s\n", (unsigned long)a, (unsigned long)sl, ref);
 		munmap(base0, total); close(fd); unlink(path);
 		return 0;
 	}
